@@ -35,6 +35,7 @@ type Solver struct {
 	timeoutMs int // per-query timeout the process was started with
 	record   bool
 	lines    [][]string
+	TotalDefs    int // define-fun commands sent over the life of this process
 	waitingSince int64
 	killed, closed int32
 }
@@ -206,6 +207,7 @@ func (s *Solver) define(t *Term) {
 			continue
 		}
 		s.send(fmt.Sprintf("(define-fun t%d () %s %s)", n.id, sortOf(n.w), n.body()))
+		s.TotalDefs++
 		s.defined[n] = true
 		s.defs[s.level] = append(s.defs[s.level], n)
 	}
